@@ -29,27 +29,27 @@ import (
 // ---- C16: out-of-band files are served only to authorised users and kept while referenced.
 
 type c16Req struct {
-	method     string
-	upload     bool
-	path       string
-	keyPlace   string // header query form cookie none
-	keyValid   bool
-	credPlace  string // xauth authz query form cookie sid none
-	credKind   string // token basic sid garbage
-	credValid  bool
-	body       []byte
-	ctype      string
+	method    string
+	upload    bool
+	path      string
+	keyPlace  string // header query form cookie none
+	keyValid  bool
+	credPlace string // xauth authz query form cookie sid none
+	credKind  string // token basic sid garbage
+	credValid bool
+	body      []byte
+	ctype     string
 }
 
 type c16World struct {
-	e      *vfEnv
-	r      *vfkit.R
-	u      *vfUser
-	login  string
-	pass   string
-	sess   *vfClient
-	sid    string
-	limit  int64
+	e     *vfEnv
+	r     *vfkit.R
+	u     *vfUser
+	login string
+	pass  string
+	sess  *vfClient
+	sid   string
+	limit int64
 }
 
 func urlSafe(s string) string { return strings.NewReplacer("+", "-", "/", "_").Replace(s) }
@@ -330,15 +330,15 @@ func TestVfC16(t *testing.T) {
 
 	// (2) exact bytes, sniffed type, forced download for active content
 	contents := map[string][]byte{
-		"html":  []byte("<!DOCTYPE html><html><body><script>alert(1)</script></body></html>"),
-		"xml":   []byte("<?xml version=\"1.0\"?><a><b/></a>"),
-		"text":  []byte("just plain text, nothing else"),
-		"png":   append([]byte("\x89PNG\r\n\x1a\n"), bytes.Repeat([]byte{0, 1, 2, 3}, 20)...),
-		"jpeg":  append([]byte("\xff\xd8\xff\xe0"), bytes.Repeat([]byte{9}, 50)...),
-		"pdf":   []byte("%PDF-1.4 fake"),
-		"bin":   {0, 1, 2, 3, 4, 5, 250, 251, 252},
-		"gif":   []byte("GIF89a......"),
-		"svg":   []byte("<svg xmlns=\"http://www.w3.org/2000/svg\"><script>alert(1)</script></svg>"),
+		"html": []byte("<!DOCTYPE html><html><body><script>alert(1)</script></body></html>"),
+		"xml":  []byte("<?xml version=\"1.0\"?><a><b/></a>"),
+		"text": []byte("just plain text, nothing else"),
+		"png":  append([]byte("\x89PNG\r\n\x1a\n"), bytes.Repeat([]byte{0, 1, 2, 3}, 20)...),
+		"jpeg": append([]byte("\xff\xd8\xff\xe0"), bytes.Repeat([]byte{9}, 50)...),
+		"pdf":  []byte("%PDF-1.4 fake"),
+		"bin":  {0, 1, 2, 3, 4, 5, 250, 251, 252},
+		"gif":  []byte("GIF89a......"),
+		"svg":  []byte("<svg xmlns=\"http://www.w3.org/2000/svg\"><script>alert(1)</script></svg>"),
 	}
 	ids := map[string]string{}
 	for kind, data := range contents {
@@ -474,7 +474,7 @@ func c16Links(w *c16World, wd *vfWorld, r *vfkit.R) {
 		grp, _ := c.newGroup(false, map[string]any{"public": "files"})
 		co.sub(grp, nil)
 		linked := map[string]map[string]bool{} // file id -> owners
-		uploadedAt := map[string]int{}          // file id -> phase
+		uploadedAt := map[string]int{}         // file id -> phase
 		var script []string
 		link := func(id, owner string) {
 			if linked[id] == nil {
